@@ -12,7 +12,11 @@ LEVEL = "model_checking"
 TECHNIQUE = ("combinational validity + non-interference queries (z3 QF_BV) on the elaborated real DFIInjector with all DFI "
              "signals and all CSR state symbolic; bounded model checking of the real DFIRateConverter over a phase-locked "
              "two-clock schedule with a marked-command monitor")
-EXPLANATION = ("Injector: for every value of every DFI signal and every CSR register state, hardware mode makes each "
+EXPLANATION = ("Rate converter: the real DFIRateConverter is unrolled over the phase-locked edge schedule of its two clock domains; "
+               "every slow-side command/write signal and every fast-side read signal is a free variable; a monitor keeps what the "
+               "slow side presented and requires, for EVERY fast cycle, that each fast phase carries exactly the slow phase "
+               "pi+nphases*j of the previous slow cycle, write data/mask as one burst at sub-cycle write_delay (zero elsewhere), and "
+               "read data/valid of sub-cycle read_delay on the matching slow phases two slow edges later.  Injector: for every value of every DFI signal and every CSR register state, hardware mode makes each "
                "master-side signal equal to the controller-side one (chip selects replicated in clam-shell mode) and returns "
                "read data unchanged in the same cycle; in software mode two copies that differ only in controller-side inputs "
                "produce identical PHY-side outputs (non-interference).  Rate converter: see benches rc_*.")
@@ -129,7 +133,108 @@ def inj_job(cfg):
     return label, cfg, recs, time.time() - t00
 
 
-BENCHES = {}
+def rc_bench(name, ratio=2, nph=1, write_delay=0, read_delay=0, databits=16, nranks=1):
+    """real DFIRateConverter (Serializer/Deserializer) on a phase-aligned two-clock schedule"""
+    from vlib import bmc, monitors
+    from litedram.phy.dfi import Interface, DFIRateConverter
+    from checks.c12 import _bad_adder
+    fast = "sys%dx" % ratio
+    phy_dfi = Interface(addressbits=13, bankbits=3, nranks=nranks, databits=databits, nphases=nph)
+
+    class Top(Module):
+        pass
+    top = Top()
+    top.submodules.dut = dut = DFIRateConverter(phy_dfi, clkdiv="sys", clk=fast, ratio=ratio, write_delay=write_delay,
+                                                read_delay=read_delay)
+    sdfi = dut.dfi
+    fsync = getattr(top.sync, fast)
+    inputs = {}
+    slow_in = []
+    cmd_names = [n for n, w, d in phy_dfi.phases[0].layout if d == DIR_M_TO_S and n not in ("wrdata", "wrdata_mask")]
+    for i, ph in enumerate(sdfi.phases):
+        for n in cmd_names + ["wrdata", "wrdata_mask"]:
+            sig = getattr(ph, n)
+            inputs["s%d_%s" % (i, n)] = sig
+            slow_in.append(sig)
+    for i, ph in enumerate(phy_dfi.phases):
+        inputs["f%d_rddata" % i] = ph.rddata
+        inputs["f%d_rddata_valid" % i] = ph.rddata_valid
+    mc = Signal(max=max(ratio, 2), reset=ratio - 1)
+    started = Signal()
+    started2 = Signal(2)
+    fsync += [mc.eq(Mux(mc == ratio - 1, 0, mc + 1)), If(mc == ratio - 1, started.eq(1), started2.eq(Mux(started2 == 3, 3, started2 + 1)))]
+    assumes, bads, covers = {}, {}, {}
+    bad = _bad_adder(top, bads)
+    # slow-domain inputs change only right after a slow edge
+    same = []
+    for sig in slow_in:
+        p = Signal(len(sig))
+        fsync += p.eq(sig)
+        same.append(p == sig)
+    a = Signal()
+    top.comb += a.eq((mc == 0) | monitors.all_(same))
+    assumes["slow_inputs_stable_within_a_slow_cycle"] = a
+    # commands: slow phase pi + nph*j of slow cycle c  ->  fast phase pi in fast cycle j of the next slow period
+    for pi, fph in enumerate(phy_dfi.phases):
+        mism = []
+        for n in cmd_names:
+            store = []
+            for j in range(ratio):
+                src = getattr(sdfi.phases[pi + nph * j], n)
+                r = Signal(len(src))
+                fsync += If(mc == ratio - 1, r.eq(src))
+                store.append(r)
+            exp = Array(store)[mc]
+            mism.append(getattr(fph, n) != exp)
+        bad("fast_phase%d_command_signals_differ_from_slow_phase_of_previous_slow_cycle" % pi, started & monitors.any_(mism))
+        # write data: one fast burst at sub-cycle write_delay
+        for n in ("wrdata", "wrdata_mask"):
+            parts = []
+            for j in range(ratio):
+                src = getattr(sdfi.phases[pi * ratio + j], n)
+                r = Signal(len(src))
+                fsync += If(mc == ratio - 1, r.eq(src))
+                parts.append(r)
+            exp = Mux(mc == write_delay, Cat(*parts), 0)
+            bad("fast_phase%d_%s_not_the_slow_burst_at_write_delay" % (pi, n), started & (getattr(fph, n) != exp))
+        # read data: fast word of sub-cycle read_delay -> slow phases two slow edges later
+        for n in ("rddata", "rddata_valid"):
+            src = getattr(fph, n)
+            cap = Signal(len(src))
+            st1 = Signal(len(src))
+            st2 = Signal(len(src))
+            fsync += [If(mc == read_delay, cap.eq(src)),
+                      If(mc == ratio - 1, st1.eq(src if read_delay == ratio - 1 else cap), st2.eq(st1))]
+            if n == "rddata":
+                w = len(src) // ratio
+                for j in range(ratio):
+                    bad("slow_phase%d_rddata_not_the_fast_word_of_read_delay_cycle" % (pi * ratio + j),
+                        (started2 == 3) & (sdfi.phases[pi * ratio + j].rddata != st2[j * w:(j + 1) * w]))
+            else:
+                for j in range(ratio):
+                    bad("slow_phase%d_rddata_valid_not_replicated" % (pi * ratio + j),
+                        (started2 == 3) & (sdfi.phases[pi * ratio + j].rddata_valid != st2))
+    c = Signal()
+    top.comb += c.eq((started2 == 3) & (sdfi.phases[0].rddata_valid == 1) & (sdfi.phases[0].rddata != 0))
+    covers["read_data_arrives_on_slow_side"] = c
+    c2 = Signal()
+    top.comb += c2.eq(started & (phy_dfi.phases[0].wrdata_mask != 0) & (phy_dfi.phases[0].ras_n == 0))
+    covers["masked_write_data_and_command_on_fast_side"] = c2
+    sched = [{"sys", fast}] + [{fast}] * (ratio - 1)
+    b = bmc.Bench(name, top, inputs, assumes=assumes, bads=bads, covers=covers, schedule=sched, clock_domains=("sys", fast),
+                  info=dict(ratio=ratio, nph=nph, write_delay=write_delay, read_delay=read_delay))
+    return b
+
+
+RC_CFG = {
+    "rc_r2_p1_w0_r0": (dict(ratio=2, nph=1), 14, 20, "qt"),
+    "rc_r2_p2_w1_r1": (dict(ratio=2, nph=2, write_delay=1, read_delay=1), 14, 20, "qt"),
+    "rc_r4_p1_w2_r3": (dict(ratio=4, nph=1, write_delay=2, read_delay=3, databits=32), 20, 28, "qt"),
+    "rc_r4_p2_w3_r0": (dict(ratio=4, nph=2, write_delay=3, read_delay=0, databits=32), 0, 24, "t"),
+    "rc_r2_p1_w1_r0_2ranks": (dict(ratio=2, nph=1, write_delay=1, read_delay=0, nranks=2), 0, 20, "t"),
+    "rc_r4_p1_w0_r1": (dict(ratio=4, nph=1, write_delay=0, read_delay=1, databits=32), 0, 24, "t"),
+}
+BENCHES = {n: partial(rc_bench, n, **c[0]) for n, c in RC_CFG.items()}
 
 
 def run_injector(ctx):
@@ -154,15 +259,17 @@ def run(ctx):
     ctx.assume("injector: CSR registers are free state (any software programming); CSR bus strobes are free inputs")
     ctx.assume("clam-shell: only cs_n is broadcast to both halves (as the source states); cke/odt are compared on the lower half")
     run_injector(ctx)
-    if BENCHES:
-        for n, (k_q, k_t, tiers) in RC_K.items():
-            if ctx.only and not ctx.only.search(n):
-                continue
-            if ctx.tier == "quick" and "q" in tiers:
-                ctx.add(n, k_q, timeout=900)
-            elif ctx.tier == "thorough":
-                ctx.add(n, k_t, timeout=3000)
-        ctx.run()
+    ctx.assume("rate converter: slow and fast clocks phase aligned (fast = ratio x slow, edges coincide); slow-side inputs change "
+               "only at slow edges; serializer counters start from their reset value; latencies as documented (commands and write "
+               "data one slow cycle, read data two slow cycles)")
+    for n, (kw, k_q, k_t, tiers) in RC_CFG.items():
+        if ctx.only and not ctx.only.search(n):
+            continue
+        if ctx.tier == "quick" and "q" in tiers:
+            ctx.add(n, k_q, timeout=900, diff_cycles=10)
+        elif ctx.tier == "thorough":
+            ctx.add(n, k_t, timeout=3000, diff_cycles=12)
+    ctx.run()
     ctx.states = max(1, ctx.states)
     ctx.transitions = max(1, ctx.transitions)
 
